@@ -180,6 +180,12 @@ impl<R> Archive<R> {
             .into_iter()
             .map(|v| v as usize)
             .collect();
+        if source_order.iter().any(|&index| index >= archive_chunks.len()) {
+            return Err(ArchiveError::invalid_archive("invalid rebuild order"));
+        }
+        if archive_chunks.iter().any(|cd| cd.archive_size == 0) {
+            return Err(ArchiveError::invalid_archive("invalid chunk size"));
+        }
         Ok(Self {
             reader,
             archive_chunks,
